@@ -315,6 +315,10 @@ ExecOne(st, a, evt, eng, proc) ==
      ELSE CASE a.kind = "user" ->
                  IF a.name \notin D.actionImpl
                  THEN [st0 EXCEPT !.err = <<"ImplementationMissingError", "action", a.name>>]
+                 ELSE IF a.name \in st.faults
+                 \* a user action that raises is contained: on_action_error is notified and the
+                 \* remainder of THIS action list is skipped (halt, consumed by ExecActs)
+                 THEN [Log(st0, L("action_error", a.name, "", {})) EXCEPT !.halt = TRUE]
                  ELSE Log(st0, L("act", a.name, evt, {}))
             [] a.kind = "raise" ->
                  LET st1 == IF eng = "async" /\ proc THEN [st0 EXCEPT !.rd = @ + 1] ELSE st0
@@ -334,7 +338,8 @@ ChooseBranch(st, branches, i, evt, eng, proc, gv) ==
           ELSE IF r.v THEN ExecActs(st1, branches[i].acts, 1, evt, eng, proc)
           ELSE ChooseBranch(st1, branches, i + 1, evt, eng, proc, gv)
 ExecActs(st, acts, i, evt, eng, proc) ==
-  IF i > Len(acts) \/ Failed(st) THEN st
+  IF st.halt THEN [st EXCEPT !.halt = FALSE]          \* a contained failure ends this list only
+  ELSE IF i > Len(acts) \/ Failed(st) THEN st
   ELSE LET a == acts[i] IN
        IF a.kind = "choose" /\ eng # "pure" THEN
           LET r == ChooseBranch(Log(st, L("ax", a.name, "", {})), a.arg, 1, evt, eng, proc, st.gv)
@@ -618,7 +623,8 @@ AsyncLoop(st, gv, fuel) ==
 AllTrue == [g \in D.guards |-> "T"]
 
 Fresh(hist0, ctx0) == [config |-> {}, hist |-> hist0, status |-> "uninitialized", ctx |-> ctx0,
-                       queue |-> <<>>, out |-> <<>>, err |-> NoErr, rd |-> 0, output |-> NONE, gv |-> <<>>]
+                       queue |-> <<>>, out |-> <<>>, err |-> NoErr, rd |-> 0, output |-> NONE, gv |-> <<>>,
+                       faults |-> {}, halt |-> FALSE]
 
 StartStep(st0, gv, eng) ==
   LET st == [st0 EXCEPT !.gv = gv] IN
